@@ -176,6 +176,10 @@ func (b *BundleAdd) Len() (n uint16) {
 	length := uint16(unsafe.Sizeof(b.BundleID) + unsafe.Sizeof(b.Flags))
 	length += uint16(len(b.pad))
 	length += b.Message.Len()
+	if len(b.Properties) > 0 {
+		// the message is followed by zero bytes up to the next 64-bit boundary
+		length = (length + 7) / 8 * 8
+	}
 	if b.Properties != nil {
 		for _, p := range b.Properties {
 			// each property is padded to a multiple of 8 bytes
@@ -200,7 +204,10 @@ func (b *BundleAdd) MarshalBinary() (data []byte, err error) {
 	}
 	copy(data[n:], msgBytes)
 	n += len(msgBytes)
-	if b.Properties != nil {
+	if len(b.Properties) > 0 {
+		// If there is one property or more, the message is followed by zero bytes up to
+		// the next 64-bit boundary (ofp_bundle_add_msg, OpenFlow 1.4 section 7.3.9.6).
+		n = (n + 7) / 8 * 8
 		for _, property := range b.Properties {
 			propertyData, err := property.MarshalBinary()
 			if err != nil {
@@ -229,6 +236,8 @@ func (b *BundleAdd) UnmarshalBinary(data []byte) error {
 	}
 	n += int(b.Message.Len())
 	if n < len(data) {
+		// the properties start on the 64-bit boundary that follows the message
+		n = (n + 7) / 8 * 8
 		b.Properties = make([]BundlePropertyExperimenter, 0)
 		for n < len(data) {
 			var property BundlePropertyExperimenter
